@@ -320,6 +320,10 @@ class GlobalModelRepository:
         Returns:
             nothing
         """
+        if not hasattr(other_model, "_tx_metamodel"):
+            # A plain Python value (e.g. the root rule is a base type, or the
+            # file is empty) can not take part in a repository.
+            return
         filename = other_model._tx_filename
         # print("PRE-CALLBACK -> {}".format(filename))
         assert filename
